@@ -1,7 +1,8 @@
 """C17 Topological aggregations reduce over exactly each element's nodes"""
 PROPERTY = "C17"
 LEVEL = "proof"
-FUNCTIONS = []
+FUNCTIONS = ['uxarray.core.aggregation._apply_node_to_edge_aggregation_numpy@dims=n_node',
+    'uxarray.core.aggregation._apply_node_to_edge_aggregation_numpy@dims=time,n_node']
 STANDINS = ["aggregations"]
 ASSUMPTIONS = []
 EXPLANATION = "partition / gather contracts + bounded stand-in over all ten reductions"
